@@ -143,3 +143,25 @@ def rand_lit(rng, tag, minlen=1, maxlen=5, weird=0.5):
         k = rng.randint(0, len(body))
         body = body[:k] + rng.choice(WEIRD) + body[k:]
     return "%s%s" % (body, tag)
+
+
+def decorate(rng, spec: EnumSpec, allow_docs=True, allow_props=True, allow_messages=True):
+    """Randomly vary HOW a definition is written without changing what it means for the property under test: attribute
+    layout (joined / split / trailing comma, flags before or after key = value items), neighbouring attributes every
+    strum derive parses (message, detailed_message, props, doc lines, interleaved doc lines).  refsem reads the same
+    spec, so expectations stay consistent for the derives that do observe these (EnumMessage, EnumProperty)."""
+    for i, v in enumerate(spec.variants):
+        r = rng.random()
+        v.attr_style = "joined" if r < 0.5 else ("split" if r < 0.8 else "trailing")
+        v.flags_last = rng.random() < 0.5
+        if allow_messages and v.message is None and rng.random() < 0.3:
+            v.message = "msg %d" % i
+        if allow_messages and v.detailed_message is None and rng.random() < 0.15:
+            v.detailed_message = "detail %d" % i
+        if allow_props and not v.props and rng.random() < 0.25:
+            v.props = [[("pk", "pv%d" % i)], [("pn", i)]][: rng.randint(1, 2)]
+        if allow_docs and not v.docs and rng.random() < 0.3:
+            v.docs = [" doc %d" % i, " more"][: rng.randint(1, 2)]
+        if len(v.docs) >= 2 and rng.random() < 0.5:
+            v.docs_interleave = True
+    return spec
